@@ -1,0 +1,22 @@
+//go:build verif
+
+package wechat
+
+// Contracts for govc (contract-based deductive verification). Comment-only file.
+
+// C20: the WeChat integration's verdicts on the send itself. A transport failure, an unexpected HTTP status, an
+// unreadable or undecodable answer are recoverable; with a decoded answer: code 0 is success, code 42001 (access token
+// expired) is recoverable and the cached token is forgotten so that the retry fetches a new one, any other code is final.
+//@ func (*Notifier).Notify
+//@   props C20
+//@   nosafe
+//@   abstract
+//@   after call errors.New assume res0 != nil
+//@   after call fmt.Errorf assume res0 != nil
+//@   after call notify.RedactURL assume (res0 != nil) == (arg0 != nil)
+//@   after call notify.NewErrorWithReason assume res0 != nil
+//@   ensures [a-transport-failure-of-the-send-is-recoverable] count("notify.PostJSON") >= 1 && called("Copy") && ret1("notify.PostJSON") != nil ==> result0 && result1 != nil
+//@   ensures [a-decoded-answer-decides] called("json.Unmarshal") && ret("json.Unmarshal") == nil && called("io.ReadAll") ==>
+//@             (weResp.Code == 0 ? (!result0 && result1 == nil) : (result1 != nil && result0 == (weResp.Code == 42001)))
+//@   ensures [an-expired-token-is-forgotten] called("json.Unmarshal") && ret("json.Unmarshal") == nil && called("io.ReadAll") && weResp.Code == 42001 ==> n.accessToken == ""
+//@   ensures [an-undecodable-answer-is-recoverable] called("io.ReadAll") && called("json.Unmarshal") && ret("json.Unmarshal") != nil ==> result0 && result1 != nil
